@@ -664,6 +664,73 @@ pub fn import_server(bytes: &[u8]) -> Option<Server> {
   Some(s)
 }
 
+/// `vh ggm-sparse --stride K --seed S` (C10): histories in which ONE input is evaluated only now and
+/// then between punctures — nothing else is evaluated in between, so whatever an implementation
+/// remembers from the last evaluation (a lookup hint, a cached node index) meets a key that has
+/// changed under it.  Every ordered history of 3 and 4 punctures over a pool of sibling / cousin
+/// leaves x every hot input x every pattern of "evaluate before this puncture or not".
+pub fn sparse(a: &Args) -> Report {
+  let mut rep = Report::new("ggm-sparse");
+  let stride = a.u64("stride", 1).max(1) as usize;
+  let seed = a.u64("seed", 1) as usize;
+  let g0 = GGM::setup();
+  let fr = fresh_truth(&g0, &mut rep);
+  let pool: [u8; 10] = [0, 128, 1, 129, 2, 130, 64, 192, 3, 131];
+  let hots: [u8; 6] = [2, 130, 6, 255, 192, 127];
+  let mut histories: Vec<Vec<u8>> = Vec::new();
+  for a1 in pool {
+    for a2 in pool {
+      if a2 == a1 { continue; }
+      for a3 in pool {
+        if a3 == a1 || a3 == a2 { continue; }
+        histories.push(vec![a1, a2, a3]);
+        for a4 in pool {
+          if a4 == a1 || a4 == a2 || a4 == a3 { continue; }
+          histories.push(vec![a1, a2, a3, a4]);
+        }
+      }
+    }
+  }
+  for (hi, h) in histories.iter().enumerate() {
+    if hi % stride != seed % stride || rep.too_many() {
+      continue;
+    }
+    for x in hots {
+      if h.contains(&x) {
+        continue;
+      }
+      let truth = &fr.vals[x as usize];
+      for mask in 0..(1u32 << h.len()) {
+        let mut g = g0.clone();
+        let mut ok = true;
+        for (i, p) in h.iter().enumerate() {
+          if (mask >> i) & 1 == 1 {
+            rep.evaluations += 1;
+            ok &= eval1(&g, x).as_ref() == Some(truth);
+          }
+          if !matches!(guard(|| g.puncture(&[*p])), Guard::Done(Ok(()))) {
+            rep.violation("C10", "GGM::puncture", "sparse:puncture-refused",
+              format!("puncture({p}) refused in history {h:?}"), json!({"history": h, "x": x, "eval_mask": mask}));
+            ok = true;
+            break;
+          }
+        }
+        rep.evaluations += 1;
+        ok &= eval1(&g, x).as_ref() == Some(truth);
+        if !ok {
+          rep.violation("C10", "GGM::eval", "sparse:value-changed",
+            format!("input {x}, evaluated only before the punctures marked in the mask and at the end of history {h:?}, did not keep its value"),
+            json!({"history": h, "x": x, "eval_mask": mask}));
+        }
+      }
+      rep.nontrivial(format!("sparse:{hi}:{x}"));
+    }
+  }
+  rep.sample(json!({"pool": pool, "hot_inputs": hots, "histories": histories.len(), "stride": stride}));
+  rep.traces = 1;
+  rep
+}
+
 /// `vh ggm-export --seed S --runs N --steps K`
 pub fn export(a: &Args) -> Report {
   let mut rep = Report::new("ggm-export");
